@@ -1335,7 +1335,7 @@ class TimeJulianYear(TimeFormat):
         if val2 is not None:
             raise ValueError(f"val2 should be None (not {val2}) for format {fmt}")
 
-        int_part, fraction = np.divmod((val - cls._j2000) * Unit.julian_year2day, 1)
+        int_part, fraction = np.divmod((np.asarray(val) - cls._j2000) * Unit.julian_year2day, 1)
         return cls._jd2000 + int_part, fraction
 
     @classmethod
